@@ -31,27 +31,6 @@ theorem parser_output_canonical (toks : List Tok) (c : Cond) (h : parse toks = s
 theorem reparse_preserves_meaning (c : Cond) (h : c.canon = true) (env : Env) :
     (reparse c).eval env = c.eval env := reparse_eval env c h
 
-theorem splice_canon (c : Cond) (s e : Int) (h : c.canon = true) : (splice (some c) s e).canon = true := by
-  have hw : (wrapUser c).canon = true ∧ (wrapUser c).notOr = true := by
-    unfold wrapUser
-    split
-    · exact ⟨by simpa [Cond.canon] using h, by simp [Cond.notOr]⟩
-    · rename_i hne
-      refine ⟨h, ?_⟩
-      cases c with
-      | atom _ => rfl
-      | paren _ => rfl
-      | bin o l r => cases o with
-        | and => rfl
-        | or => exact absurd rfl (hne l r)
-  have hi : (Cond.bin .and (geTL s) (ltTL e)).canon = true ∧ (Cond.bin .and (geTL s) (ltTL e)).notOr = true := by
-    simp [Cond.canon, Cond.notOr, geTL, ltTL]
-  simp only [splice, Cond.canon, hw.1, hw.2, hi.2]
-  simp [geTL, ltTL, Cond.canon, Cond.notOr]
-
-theorem wrapUser_eval (c : Cond) (env : Env) : (wrapUser c).eval env = c.eval env := by
-  unfold wrapUser; split <;> simp [Cond.eval]
-
 /-- **splice_semantics.** For EVERY user WHERE text the parser accepts and every range: the text NewQuery
 issues parses, and it is true of a row exactly when the user's condition is true of it and
 s ≤ time < e. -/
@@ -173,12 +152,6 @@ theorem tickerNextOld_skips_first_tick :
     (List.range 3).map (fun k => liveTick 10 true 5 k) = [10, 20, 30] := by decide
 
 /-! ### (4) the historical list is exactly the live list -/
-
-theorem ticksOf_map_tickRange (offset period : Int) (l : List Int) :
-    ticksOf offset (l.map (tickRange offset period)) = l := by
-  induction l with
-  | nil => rfl
-  | cons a l ih => simp only [ticksOf, List.map_cons, tickRange] at ih ⊢; rw [ih]; congr 1; omega
 
 /-- General form: whenever `next t` is the first live time after `t` (for `t` = the start or a live time),
 the ranges `Queries(start, stop)` produces satisfy `HistSpec` — for every span, offset, period and `now`.
